@@ -613,6 +613,7 @@ def cycleStep (key : List Val) (len : Nat) : List (List Val × Nat) → Nat × L
 def cycleKeyVal (auto : Bool) (st : St) (a : Arg) : Val :=
   match evalArg auto st a, a with
   | .undef, .var n => .other n.toList
+  | .str s, _ => .str ⟨s.chars, false⟩      -- `_args_key`: a `Markup` item counts as the equal `str` (fix2-C05)
   | v, _ => v
 
 /-- items a `for` loop visits: a string is a one-item sequence unless empty -/
